@@ -1219,7 +1219,7 @@ static int mode_twin(uint64_t seed, int nframes, const char *path)
 	struct cfg ca, cb;
 	xmp_context xa, xb;
 	struct context_data *A, *B;
-	int f, v, len, budget_m = 60, budget_p = 60;
+	int f, v, len, budget_m = 60, budget_p = 60, tablefmt;
 	long cmp = 0, skipped = 0, nna = 0, muted = 0;
 
 	seed_for(seed, path, 2);
@@ -1248,6 +1248,14 @@ static int mode_twin(uint64_t seed, int nframes, const char *path)
 	}
 	A = (struct context_data *)xa;
 	B = (struct context_data *)xb;
+	tablefmt = A->m.vol_table != NULL;
+	if (tablefmt && (cb.master == 100 || cb.master == 0)) {
+		/* the value relation of a volume-table format needs a master volume that really scales */
+		cb.master = vrng_chance(50) ? vrng_range(101, 200) : vrng_range(1, 99);
+		xmp_set_player(xb, XMP_PLAYER_VOLUME, cb.master);
+	}
+	if (tablefmt)
+		budget_m = 200;		/* volume translation table formats: the value relation is the only witness of the lookup order */
 	printf("begin twin %s fmt=%d mix=%d master=%d smix=%d pos=%d\n", path, cb.fmt, cb.mix, cb.master, cb.smixvol,
 	       cb.startpos);
 	for (f = 0; f < nframes; f++) {
@@ -1271,7 +1279,7 @@ static int mode_twin(uint64_t seed, int nframes, const char *path)
 				nna++;
 			if (root_muted)
 				muted++;
-			if (budget_m > 0 && (vrng_chance(8) || (a->chn >= A->p.virt.num_tracks && vrng_chance(50)))) {
+			if (budget_m > 0 && (vrng_chance(tablefmt ? 40 : 8) || (a->chn >= A->p.virt.num_tracks && vrng_chance(50)))) {
 				printf("C mst %d %d %d %d %d %d %d %d\nE %d\n", a->chn, A->m.mod.chn, A->p.virt.num_tracks,
 				       cb.master, cb.smixvol, a->root, root_muted, a->vol, b->vol);
 				budget_m--;
@@ -1283,7 +1291,8 @@ static int mode_twin(uint64_t seed, int nframes, const char *path)
 			}
 		}
 	}
-	printf("twinstat %s compared=%ld skipped=%ld nna=%ld muted=%ld\n", base_name(path), cmp, skipped, nna, muted);
+	printf("twinstat %s compared=%ld skipped=%ld nna=%ld muted=%ld voltable=%d master=%d smix=%d\n", base_name(path), cmp, skipped, nna, muted,
+	       A->m.vol_table != NULL, cb.master, cb.smixvol);
 	close_ctx(xa);
 	close_ctx(xb);
 	return 0;
